@@ -31,12 +31,11 @@ def on_error_resume_next_(
         even if a sequence terminates exceptionally.
     """
 
-    sources_ = iter(sources)
-
     def subscribe(
         observer: abc.ObserverBase[_T], scheduler: abc.SchedulerBase | None = None
     ) -> abc.DisposableBase:
         scheduler = scheduler or CurrentThreadScheduler.singleton()
+        sources_ = iter(sources)
 
         subscription = SerialDisposable()
         cancelable = SerialDisposable()
@@ -51,7 +50,12 @@ def on_error_resume_next_(
                 return
 
             # Allow source to be a factory method taking an error
-            source = source(state) if callable(source) else source
+            try:
+                source = source(state) if callable(source) else source
+            except Exception as ex:  # pylint: disable=broad-except
+                observer.on_error(ex)
+                return
+
             current = reactivex.from_future(source) if is_future(source) else source
 
             d = SingleAssignmentDisposable()
